@@ -101,12 +101,26 @@ func modelInputs(g *Gen, model string) map[string]interface{} {
 	return out
 }
 
+// runReplay runs the function's replay drivers in turn (a function may name several, each written
+// for one defect class) and stops at the first that reproduces a violation on the real code.
 func runReplay(repo, verif string, con *FuncContract, o *Obligation, model string) (output string, reproduced bool, witness string) {
+	var outs []string
+	for _, d := range strings.Fields(con.Replay) {
+		out, ok, w := runReplayDriver(repo, verif, con, d, o, model)
+		outs = append(outs, "== driver "+d+"\n"+out)
+		if ok {
+			return strings.Join(outs, "\n"), true, w
+		}
+	}
+	return strings.Join(outs, "\n"), false, ""
+}
+
+func runReplayDriver(repo, verif string, con *FuncContract, spec string, o *Obligation, model string) (output string, reproduced bool, witness string) {
 	// "replay name" runs the driver in the contract's package; "replay name@dir" in another package
 	// of the repository (a driver that exercises the function through its callers)
-	drvName, drvDir := con.Replay, ""
+	drvName, drvDir := spec, ""
 	if i := strings.Index(drvName, "@"); i >= 0 {
-		drvName, drvDir = con.Replay[:i], con.Replay[i+1:]
+		drvName, drvDir = spec[:i], spec[i+1:]
 	}
 	driver := filepath.Join(verif, "replay", "drivers", drvName+"_test.go")
 	if _, err := os.Stat(driver); err != nil {
